@@ -15,8 +15,8 @@ from ..ref import ratelaws as L
 
 LEVEL = "exploration"
 
-A_THOROUGH = [0.0, 1.0, -1.0, 2.0, -3.0, 2.5, -2.5, 1.23456789e-3, 1e-10, -3e20, 1e22]
-A_QUICK = [0.0, 1.0, -1.0, 2.0, -2.5, 1.23456789e-3, 1e-10, -3e20]
+A_THOROUGH = [0.0, 1.0, -1.0, 2.0, -3.0, 2.5, -2.5, 0.5, -0.5, 1.5, -1.5, -2.0, 3.0, 1.23456789e-3, 1e-10, -3e20, 1e22]
+A_QUICK = [0.0, 1.0, -1.0, 2.0, -2.5, 0.5, -0.5, 1.23456789e-3, 1e-10, -3e20]
 
 GRID = [
     {"Tgas": T, "Av": Av, "zeta": z, "zeta_cr": z, "zeta_xr": zx, "omega": 0.5, "G0": g0, "nH": 1e4, "Tdust": 15.0}
